@@ -321,7 +321,6 @@ func firstN(tr []verifrt.SwitchRec, n int) []verifrt.SwitchRec {
 	return tr
 }
 
-
 func init() {
 	register(&Check{
 		ID: "C06", Level: "exploration", NeedsRace: true, Isolated: true, Run: c06Run,
